@@ -101,6 +101,7 @@ extern uint32_t vp_fill_seed;
 extern int vp_opt_tx_hex;          /* log hex of transmitted frames */
 extern int vp_opt_tx_cap;          /* T lines per input before only counting */
 extern int vp_opt_tx_cost, vp_opt_hello_cost, vp_opt_clock_tick;
+extern int vp_opt_pad;
 extern int vp_fail_rc;             /* return value of failing getters (any non-zero value is a failure) */
 extern int vp_opt_sleep;           /* log Z lines */
 extern int vp_silent;              /* no logging at all (C20 syscall bracket) */
